@@ -11,6 +11,7 @@ CONSTANTS
   ClassExprs <- ClassExprsFull
   Repaired = {"KvCompName", "SliceKVRules"}
   Variant = "asCoded"
+  NonceCtxs = {"c1", "c2"}
   MaxNonces = 1
   MaxSteps = 6
   EmitEdges = FALSE
